@@ -156,8 +156,9 @@ def run_witnesses(rule_names, scratch):
         pos = [x for x in em.records if x['kind'] == 'violation' and 'positive' in x['func']]
         neg = [x for x in em.records if x['kind'] == 'violation' and 'negative' in x['func']]
         summary[rn] = {'witness': w, 'positive_reports': len(pos), 'negative_reports': len(neg)}
-        if not pos:
-            broken.append('%s: does not fire on its positive witness %s' % (rn, w))
+        need = getattr(mod, 'WITNESS_MIN', 1)
+        if len({x['func'] for x in pos}) < need:
+            broken.append('%s: fires on %d positive witness functions of %s, expected at least %d' % (rn, len({x['func'] for x in pos}), w, need))
         if neg:
             broken.append('%s: fires on its negative witness %s (%s)' % (rn, w, neg[0]['construct']))
     return summary, broken
